@@ -79,6 +79,10 @@ CHECKS["C20"] = ("E3", "deterministic simulation inside a testing/synctest bubbl
   "exploration",
   "At every request: FilterNodes without duplicates, subset of the nodes the reference breaker rejects, size <= floor(k*n/den) in integers; HalfOpenNodes == nodes in passive half-open probing; nodes that completed a request successfully since being scheduled for recycling stay known; no unknown node appears. Sampling of configurations and histories.",
   "Trusted: reference breaker model (shared with C03), synctest fake clock, scripted RecoveryCheckFunc instead of TCP dial; overlay helper that (re)starts the workers inside the bubble and the renamed init functions.", "DESIGN.md §3 C20")
+CHECKS["C15"] = ("E2r", "deterministic simulation under the Go race detector: the worker is built with -race; 3-6 simulated callers (traffic incl. requests through the outlier slots, per-resource and whole-set rule churn of all six modules, getters and statistics readers) are interleaved by the seeded scheduler at every atomic access and lock operation; the scheduler hands over by spinning on a plain word inside go:norace code so that it adds no happens-before edge and the detector judges only the program's own synchronisation",
+  "exploration",
+  "(1) any race report is a violation (worker stops at the first one, the run in flight is regenerated from a progress file as the replay); (2) no panic, no deadlock, all callers finish; (3) a request on a churned resource is always decided by one of the two complete rule lists (blocked by block0 or block1), never a mixture; (4) the stable and the rule-free resource are unaffected by churn elsewhere. Sampled schedules (3*10^4 per quick run).",
+  "Trusted: the norace spin hand-off adds no synchronisation (probed: an unlocked map race is reported, a locked one is not); the race detector's bounded shadow memory (short runs); SimPool publishes Put->Get of the same object only.", "DESIGN.md §3 C15")
 NOT_YET = {}
 props = [json.loads(l) for l in open(os.path.join(HERE, 'properties.jsonl'))]
 checks, na = [], []
@@ -114,7 +118,8 @@ m = {
    {"name": "E1", "path": "/verif/sim, /verif/harness", "serves_properties": [c for c in CHECKS if CHECKS[c][0].startswith("E1")], "kind_free_text": "single simulated caller, discrete-event virtual clock (util.Clock seam), seeded operation and fault sequences, reference-model oracles"},
    {"name": "E3", "path": "/verif/cmd/simbubble", "serves_properties": [c for c in CHECKS if CHECKS[c][0] == "E3"], "kind_free_text": "testing/synctest bubble (go1.26.8 test binary): fake clock for real timers, quiescence detection for real background goroutines; stub fsnotify watcher"},
    {"name": "E4", "path": "/verif/props/c17", "serves_properties": [c for c in CHECKS if CHECKS[c][0] == "E4"], "kind_free_text": "real files on tmpfs under the virtual clock; crash = truncation at every byte offset of the last data / index file"},
-   {"name": "E2", "path": "/verif/sim/sched.go", "serves_properties": [c for c in CHECKS if "E2" in CHECKS[c][0]], "kind_free_text": "cooperative seeded scheduler: k simulated callers, one runs at a time, a yield point before every atomic / lock operation (overlay import substitution); random-walk and PCT policies; literal schedule replay"},
+   {"name": "E2r", "path": "/verif/sim/handoff_spin.go", "serves_properties": [c for c in CHECKS if CHECKS[c][0] == "E2r"], "kind_free_text": "E2 under the Go race detector (-race build, norace spin hand-off)"},
+   {"name": "E2", "path": "/verif/sim/sched.go", "serves_properties": [c for c in CHECKS if "E2" in CHECKS[c][0] and CHECKS[c][0] != "E2r"], "kind_free_text": "cooperative seeded scheduler: k simulated callers, one runs at a time, a yield point before every atomic / lock operation (overlay import substitution); random-walk and PCT policies; literal schedule replay"},
  ],
  "checks": checks,
  "not_applicable": na,
